@@ -190,3 +190,13 @@ Theorem dq_quiescent_not_null : forall n s t k me pre lcs ops i,
     k_run k' = false /\ k_ops k' = ops /\ k_out k' = k_out k ++ [Some x].
 Proof. exact DqProofs.dq_quiescent_not_null. Qed.
 Print Assumptions dq_quiescent_not_null.
+
+(* the acceptor used by the sequential scripted qdqueue mode is sound for the model: a dequeue that runs alone returns a
+   result that seq_deq_ok accepts on the sub-queues as they were before it *)
+Theorem dq_seq_accept_sound : forall n s t k me pre lcs ops m k',
+  alls_ok n (d_alls s) = true -> (me < n)%nat -> length (d_qs s) = n ->
+  nth_error (d_tasks s) t = Some k -> k_run k = false -> k_ops k = DDeq me pre lcs :: ops ->
+  nth_error (d_tasks (drun s (repeat t m))) t = Some k' -> k_run k' = false -> k_ops k' = ops ->
+  exists r, k_out k' = k_out k ++ [r] /\ seq_deq_ok (d_qs s) me r = true.
+Proof. exact DqProofs.dq_seq_accept_sound. Qed.
+Print Assumptions dq_seq_accept_sound.
